@@ -115,4 +115,34 @@ impl SearchIndex {
             final(self).inv(), final(self).archive() == old(self).archive(),
             final(self).docs() == Map::<DocId, IdxMeta>::empty(),
     { unimplemented!() }
+    // -- further methods of the real type with a label proved in unit search, so that an edit that calls
+    //    one of them still composes --
+    /// unit search [update_keeps_inv], [update_view] (search.rs:593 `remove` + `add`: the document is replaced or added)
+    #[verifier::external_body]
+    pub fn update(&mut self, folder_id: &VaultId, id: &SecretId, meta: &SecretMeta, secret: &Secret)
+        requires old(self).inv(),
+        ensures
+            final(self).inv(), final(self).archive() == old(self).archive(),
+            final(self).docs() == old(self).docs().insert((folder_id@, id@), idx_meta(meta@)),
+    { unimplemented!() }
+    /// unit search [find_by_id_iff_indexed], [find_by_id_value]
+    #[verifier::external_body]
+    pub fn find_by_id(&self, folder_id: &VaultId, id: &SecretId) -> (r: Option<&Document>)
+        requires self.inv(),
+        ensures
+            r.is_some() == self.docs().contains_key((folder_id@, id@)),
+            r matches Some(d) ==> d.did() == (folder_id@, id@) && d.dmeta() == self.docs()[(folder_id@, id@)],
+    { unimplemented!() }
+    /// unit search [len_is_doc_count]
+    #[verifier::external_body]
+    pub fn len(&self) -> (r: usize)
+        requires self.inv(),
+        ensures r == self.docs().len(),
+    { unimplemented!() }
+    /// unit search [is_empty_iff_no_docs]
+    #[verifier::external_body]
+    pub fn is_empty(&self) -> (r: bool)
+        requires self.inv(),
+        ensures r == (self.docs().len() == 0),
+    { unimplemented!() }
 }
